@@ -12,6 +12,10 @@
 (*       "lin":   z = f x + g y    (linearity)                             *)
 (*       "geq":   y >= x (1 - tol) (spectra do not decrease on refinement) *)
 (*       all to |..| <= tol * scale                                        *)
+(*  kind "refine": T, xi, dt, r, a[] (original record), u0[], v0[]          *)
+(*       (response to a at step dt), ur[], vr[] (response to the record    *)
+(*       refined r times at step dt/r, sampled at the original instants):  *)
+(*       equal within the C01 tolerance of both computations               *)
 (***************************************************************************)
 EXTENDS Oscillator, Json, IOUtils, TLC, VerdictLib
 
@@ -25,21 +29,19 @@ ShapeOK(r) == Len(r.u) = Len(r.a) /\ Len(r.v) = Len(r.a) /\ Len(r.acc) = Len(r.a
 Init == /\ tid \in 1..Len(Recs) /\ l = 0 /\ y = Y0
         /\ fl = IF Recs[tid].kind = "series" THEN Flow(Recs[tid].T, Recs[tid].xi, Recs[tid].dt) ELSE <<>>
         /\ sc = IF Recs[tid].kind = "series" /\ ShapeOK(Recs[tid])
-                THEN LET r == Recs[tid]  w == FDiv(TwoPi, r.T)  am == FMaxAbs(r.a)
-                     IN << FMax(FMaxAbs(r.u), FMul(Floor, FDiv(am, FSq(w)))),
-                           FMax(FMaxAbs(r.v), FMul(Floor, FDiv(am, w))),
-                           FMax(FMaxAbs(r.acc), FMul(Floor, am)) >>
+                THEN LET r == Recs[tid]  w == FDiv(TwoPi, r.T)  am == FMaxAbs(r.a)  n == Len(r.a)
+                     IN << AbsTol(r.T, r.dt, n, FMaxAbs(r.u), FDiv(am, FSq(w))),
+                           AbsTol(r.T, r.dt, n, FMaxAbs(r.v), FDiv(am, w)) >>
                 ELSE <<>>
         /\ bad = IF Recs[tid].kind \in {"series", "zero"} THEN Fails(ShapeOK(Recs[tid]), "Shape") ELSE {}
 
 SeriesStep(i) ==
   LET y2 == IF i = 1 THEN Y0 ELSE Advance(fl, y, R.a[i - 1], R.a[i])
-      tol == RelTol(R.T, R.dt, Len(R.a))
-      okU == Close(R.u[i], Disp(fl, y2), FMul(tol, sc[1]))
-      okV == Close(R.v[i], Velo(fl, y2), FMul(tol, sc[2]))
+      okU == Close(R.u[i], Disp(fl, y2), sc[1])
+      okV == Close(R.v[i], Velo(fl, y2), sc[2])
       \* third series against the reported u, v
       ref == FNeg(FAdd(FMul(FMul(FMul(Two, R.xi), fl.w), R.v[i]), FMul(FSq(fl.w), R.u[i])))
-      okA == Close(R.acc[i], ref, FMul(FStr("1e-6"), sc[3]))
+      okA == Close(R.acc[i], ref, AccTol(fl.w, R.xi, R.u[i], R.v[i]))
   IN /\ y' = y2
      /\ bad' = bad \cup Fails(okU, "DispExact") \cup Fails(okV, "VeloExact") \cup Fails(okA, "AccIdentity")
 
@@ -55,9 +57,17 @@ RelCheck ==
             ELSE Len(R.x) = Len(R.y) /\ \A j \in 1..Len(R.x) : FGe(R.y[j], FSub(R.x[j], FMul(R.tol, FAbs(R.x[j]))))
   IN Fails(ok, R.clause)
 
+RefineCheck ==
+  LET n == Len(R.a)  w == FDiv(TwoPi, R.T)  am == FMaxAbs(R.a)
+      nr == (n - 1) * R.r + 1  dtr == FDiv(R.dt, FInt(R.r))
+      tu == FAdd(AbsTol(R.T, R.dt, n, FMaxAbs(R.u0), FDiv(am, FSq(w))), AbsTol(R.T, dtr, nr, FMaxAbs(R.u0), FDiv(am, FSq(w))))
+      tv == FAdd(AbsTol(R.T, R.dt, n, FMaxAbs(R.v0), FDiv(am, w)), AbsTol(R.T, dtr, nr, FMaxAbs(R.v0), FDiv(am, w)))
+  IN Fails(/\ Len(R.ur) = n /\ Len(R.vr) = n /\ Len(R.u0) = n /\ Len(R.v0) = n
+           /\ \A j \in 1..n : Close(R.ur[j], R.u0[j], tu) /\ Close(R.vr[j], R.v0[j], tv), "RefineInvariant")
+
 Step == /\ l >= 0 /\ l < N /\ "Shape" \notin bad /\ l' = l + 1 /\ UNCHANGED <<tid, fl, sc>>
         /\ IF R.kind = "series" THEN SeriesStep(l + 1)
-           ELSE y' = y /\ bad' = bad \cup (IF R.kind = "zero" THEN ZeroCheck ELSE RelCheck)
+           ELSE y' = y /\ bad' = bad \cup (IF R.kind = "zero" THEN ZeroCheck ELSE IF R.kind = "refine" THEN RefineCheck ELSE RelCheck)
 Finish == (l = N \/ "Shape" \in bad) /\ l >= 0 /\ l' = -1 /\ UNCHANGED <<tid, y, fl, sc, bad>>
 Next == Step \/ Finish
 Spec == Init /\ [][Next]_vars
